@@ -129,7 +129,7 @@ func (s *Snapshot) GovInv(k int) (string, string) {
 	if n < k {
 		return "fewer-candidates-than-k", fmt.Sprintf("only %d candidates in the previous view, K=%d", n, k)
 	}
-	if s.GP.A+s.GP.B > 100 {
+	if uint64(s.GP.A)+uint64(s.GP.B) > 100 {
 		return "a-plus-b", "A+B > 100"
 	}
 	if s.GP2 != nil && s.GP2.DappFee > 100 {
